@@ -161,6 +161,11 @@ class Built:
             return eworld.PREDICATES[e[1]](**{k: self.bx(v) for k, v in e[2].items()})
         if tag == "fn":
             return eworld.FUNCTIONS[e[1]](**{k: self.bx(v) for k, v in e[2].items()})
+        if tag == "stream":
+            values = self.sc.get("streams", [])
+            if e[1] >= len(values):
+                raise BuildError("no stream")
+            return eworld.stream(1000 + e[1], values[e[1]])
         if tag == "shared":
             k = e[1]
             if k not in self.shared:
@@ -740,8 +745,10 @@ def _result(log, counters, verdicts, nontrivial, shape, note=None):
 
 
 def generate(rng, cfg: Dict) -> Dict:
-    from . import eval_gen
+    from . import eval_gen, lazy_rules
 
+    if cfg.get("property") == "C10":
+        return lazy_rules.generate(rng, cfg)
     return eval_gen.generate(rng, cfg)
 
 
